@@ -190,6 +190,71 @@ fn write_all(stream: SeqIter<Result<InternalValue, Error>>, table_writer: &mut T
     Ok(())
 }
 //@ WRAPPER_END
+/// the compaction flavour (StandardCompaction / RelocatingCompaction, units blob_links, relocate): what was handed to it, in order
+struct Compactor { ghost got: Seq<InternalValue> }
+impl Compactor {
+    #[verifier::external_body]
+    fn write(&mut self, item: InternalValue) -> (r: Result<(), Error>) ensures r is Ok ==> final(self).got == old(self).got.push(item), r is Err ==> final(self).got == old(self).got { unimplemented!() }
+}
+/// StopSignal: set only by `Drop for TreeInner` (src/tree/inner.rs), i.e. when no handle to the tree is left
+struct StopSignal { ghost stopped: bool }
+impl StopSignal { #[verifier::external_body] fn is_stopped(&self) -> (r: bool) ensures r == self.stopped { unimplemented!() } }
+struct Options { stop_signal: StopSignal }
+/// `merge_iter.enumerate()`
+struct Enumerated { ghost rest: Seq<Result<InternalValue, Error>>, ghost idx: usize }
+impl Enumerated {
+    #[verifier::external_body]
+    fn next(&mut self) -> (r: Option<(usize, Result<InternalValue, Error>)>)
+        ensures old(self).rest.len() == 0 ==> r is None && *final(self) == *old(self),
+            old(self).rest.len() > 0 ==> r == Some((old(self).idx, old(self).rest[0])) && final(self).rest == old(self).rest.skip(1) && final(self).idx == old(self).idx + 1
+    { unimplemented!() }
+}
+#[verifier::external_body]
+fn enumerate(it: SeqIter<Result<InternalValue, Error>>) -> (r: Enumerated) ensures r.rest == it.rest(), r.idx == 0 { unimplemented!() }
+
+//@ WRAPPER_BEGIN
+/// wrapper (generated) around the body of the closure merge_tables hands to hidden_guard: the merge loop
+fn merge_loop(merge_iter: SeqIter<Result<InternalValue, Error>>, compactor: &mut Compactor, opts: &Options) -> (r: Result<(), Error>)
+    requires merge_iter.rest().len() < usize::MAX
+    ensures
+        // unless the tree is being dropped (stop signal), a merge that reports success has handed EVERY entry of the merge stream to
+        // the compactor, unchanged and in order; a stream or write error aborts the merge
+        r is Ok && !opts.stop_signal.stopped ==> ({
+            let n = merge_iter.rest().len() as int; let g0 = old(compactor).got; let g1 = final(compactor).got;
+            g1.len() == g0.len() + n && g1.subrange(0, g0.len() as int) == g0
+            && forall|i: int| 0 <= i < n ==> (#[trigger] merge_iter.rest()[i]) is Ok && g1[g0.len() + i] == merge_iter.rest()[i]->Ok_0 }),
+{
+//@ FROM src/compaction/worker.rs :: - :: fn merge_tables :: CLOSURE 1 `|| {` :: STMTS `for ( idx , item ) in` .. `Ok ( ( ) )` :: OBL C09.9, C12.28
+//@ SUBST `for ( idx , item ) in merge_iter . enumerate ( ) {` ==> `let mut iter__ = enumerate(merge_iter); loop { let Some((idx, item)) = iter__.next() else { break; };`
+    /*+*/let ghost s0 = merge_iter.rest(); let ghost g0 = compactor.got; let ghost mut c: int = 0;
+    proof { assert(s0.skip(0) =~= s0); assert(g0.subrange(0, g0.len() as int) =~= g0); }/*-*/
+    let mut iter__ = enumerate(merge_iter); loop
+        /*+*/invariant 0 <= c <= s0.len(), iter__.rest == s0.skip(c), iter__.idx == c, s0.len() < usize::MAX,
+            compactor.got.len() == g0.len() + c, compactor.got.subrange(0, g0.len() as int) == g0,
+            forall|i: int| 0 <= i < c ==> (#[trigger] s0[i]) is Ok && compactor.got[g0.len() + i] == s0[i]->Ok_0,
+        ensures c == s0.len(),
+        decreases s0.len() - c/*-*/
+    { let Some((idx, item)) = iter__.next() else { break; };
+        /*+*/proof { assert(s0.skip(c)[0] == s0[c]); assert(s0.skip(c).skip(1) =~= s0.skip(c + 1)); }
+        let ghost gi = compactor.got;/*-*/
+        let item = item?;
+
+        compactor.write(item)?;
+        /*+*/proof {
+            assert(compactor.got.subrange(0, g0.len() as int) =~= gi.subrange(0, g0.len() as int));
+            assert forall|i: int| 0 <= i < c implies (#[trigger] s0[i]) is Ok && compactor.got[g0.len() + i] == s0[i]->Ok_0 by { assert(compactor.got[g0.len() + i] == gi[g0.len() + i]); }
+            c = c + 1;
+        }/*-*/
+
+        if idx % 1_000_000 == 0 && opts.stop_signal.is_stopped() {
+            return Ok(());
+        }
+    }
+
+    Ok(())
+//@ END
+}
+//@ WRAPPER_END
 /// one more entry written: what was established for the earlier ones still holds
 proof fn lemma_step(t0: Seq<InternalValue>, ti: Seq<InternalValue>, tn: Seq<InternalValue>, s0: Seq<Result<InternalValue, Error>>, c: int, bi: Seq<(ValueHandle, Rec)>, bn: Seq<(ValueHandle, Rec)>)
     requires 0 <= c < s0.len(), ti.len() == t0.len() + c, ti.subrange(0, t0.len() as int) == t0, tn.len() == ti.len() + 1, tn.drop_last() == ti,
